@@ -183,3 +183,36 @@ def run(ctx):
     # load_incremental into an empty document goes through the same loader with Ignore (so it inherits the rule above)
     b = ctx.body(LI)
     ctx.ob("R9-nodrop", "load_incremental_log_patches|empty document path uses the full loader", any(callee(t) == "automerge::automerge::Automerge::load_with_options" for _, t in b.calls()), b.rec["sp"], "")
+    check_accumulator(ctx, f)
+
+
+def check_accumulator(ctx, f):
+    """Partial { loaded } must carry every change of the chunks that were read completely: in load_changes the vector handed to
+    load_next_change and returned as `loaded` is never shrunk, except back to a checkpoint (its own len()) taken inside the chunk loop"""
+    ctx.rule("R9-accum", "load_changes: no truncate / clear / drain / pop on the accumulated changes, unless to a len() checkpoint taken on a cycle of the chunk loop")
+    b = ctx.body("automerge::storage::load::load_changes")
+    acc = set()
+    for blk in b.blocks:
+        for st in blk["st"]:
+            rv = st["rv"]
+            if rv["k"] == "Agg" and (rv.get("adt") or "").endswith("LoadedChanges") and rv.get("variant") == "Partial" and "loaded" in rv.get("fields", []):
+                o = b.operand_origin(rv["o"][rv["fields"].index("loaded")])
+                if o:
+                    acc.add(o[0])
+    ctx.floor("LoadedChanges::Partial constructions in load_changes", len(acc), 1)
+    shr = []
+    for bi, t in b.calls():
+        n = norm_fn(t.get("fn")) or ""
+        if n in ("alloc::vec::Vec::truncate", "alloc::vec::Vec::clear", "alloc::vec::Vec::drain", "alloc::vec::Vec::pop", "alloc::vec::Vec::split_off", "alloc::vec::Vec::retain", "alloc::vec::Vec::remove", "alloc::vec::Vec::swap_remove"):
+            o = b.operand_origin(t["args"][0])
+            if o and o[0] in acc:
+                shr.append((bi, t))
+    for k, (bi, t) in util.ordinal_keys(shr, lambda it: "load_changes|%s on the accumulated changes" % norm_fn(it[1]["fn"]).split("::")[-1]):
+        ok = False
+        if norm_fn(t["fn"]).endswith("truncate"):
+            pv = b.provenance(t["args"][1], through_calls=True)
+            lens = [cb for c, cb in pv.calls | pv.decls if norm_fn(c).endswith("Vec::len") and (b.operand_origin(b.blocks[cb]["t"]["args"][0]) or (None,))[0] in acc]
+            ok = bool(lens) and all(any(b.can_reach(s_, cb) for s_ in b.succ[cb]) for cb in lens)
+        ctx.ob("R9-accum", k, ok, t["sp"], "rolled back to a checkpoint taken in the same loop" if ok else
+               "the changes gathered from chunks that were read completely are discarded before they are returned as LoadedChanges::Partial.loaded")
+    ctx.ob("R9-accum", "load_changes|accumulated changes only grow", True, b.rec["sp"], "%d shrinking operation(s) examined" % len(shr), nontrivial=False)
